@@ -108,9 +108,16 @@ def pushVertices (vs : List (V3 α)) (point : V3 α) : Res (List (V3 α)) :=
   if 2 ≤ n then do
     let a ← vget vs (n - 2) "loop3d.rs:push:a"
     let b ← vget vs (n - 1) "loop3d.rs:push:b"
+    -- a repeated point adds nothing
+    if b.compare point then .ok vs else
     -- `a.is_collinear(b, point).unwrap_or(true)`
     if (a.isCollinear b point).getD true then
-      .ok (vs.set (n - 1) point)
+      -- a collinear point that folds the outline back onto its last edge is refused
+      let ab := b - a
+      let bc := point - b
+      if !(a.compare b) && ab.dot bc <. (0 : α)
+          && (ab.cross bc).length <. (1e-5 : α) * ab.length * bc.length then .err "loop3d.rs:push:fold-back"
+      else .ok (vs.set (n - 1) point)
     else .ok (vs ++ [point])
   else .ok (vs ++ [point])
 
@@ -172,59 +179,57 @@ def setArea (l : Loop α) : Loop α × Res α :=
     let normal := if area <. (0 : α) then l.normal.smul (-(1 : α)) else l.normal
     ({ l with normal := normal, area := Num.abs area }, .ok (Num.abs area))
 
-/-- `close` -/
+/-- the `loop { … }` of `close` that drops the redundant (collinear or repeated) vertices at the seam; every iteration that
+    continues removes a vertex, so the number of vertices is enough fuel -/
+def closeSeam : Nat → List (V3 α) → Res (List (V3 α))
+  | 0, vs => .ok vs
+  | fuel + 1, vs =>
+    let n := vs.length
+    if n < 3 then .err "loop3d.rs:close:less-than-3" else do
+    let a ← vget vs (n - 2) "loop3d.rs:close:a"
+    let b ← vget vs (n - 1) "loop3d.rs:close:b"
+    let c ← vget vs 0 "loop3d.rs:close:c"
+    let lastCol ← a.isCollinearR b c
+    if lastCol then closeSeam fuel vs.dropLast else do
+    let c2 ← vget vs 1 "loop3d.rs:close:c2"
+    let firstCol ← b.isCollinearR c c2
+    if firstCol then closeSeam fuel (vs.eraseIdx 0) else .ok vs
+
+/-- `close`: works on a copy; the loop is replaced only when everything succeeded -/
 def close (l : Loop α) : Loop α × Res Unit :=
   if l.vertices.length < 3 then (l, .err "loop3d.rs:close:less-than-3") else
-  let n := l.vertices.length
-  let lastCollinear : Res Bool := do
-    let a ← vget l.vertices (n - 2) "loop3d.rs:close:a"
-    let b ← vget l.vertices (n - 1) "loop3d.rs:close:b"
-    let c ← vget l.vertices 0 "loop3d.rs:close:c"
-    a.isCollinearR b c
-  match lastCollinear with
+  match closeSeam (l.vertices.length + 1) l.vertices with
   | .err e => (l, .err e)
   | .panic p => (l, .panic p)
-  | .ok col =>
-    -- `self.vertices.pop()`
-    let l1 := if col then { l with vertices := l.vertices.dropLast } else l
+  | .ok vs =>
+    let l1 := { l with vertices := vs }
     let closing : Res Unit := do
       let v0 ← vget l1.vertices 0 "loop3d.rs:close:v0"
       l1.validToAdd v0
     match closing with
-    | .err e => (l1, .err e)
-    | .panic p => (l1, .panic p)
+    | .err e => (l, .err e)
+    | .panic p => (l, .panic p)
     | .ok () =>
-      let n := l1.vertices.length
-      let firstCollinear : Res Bool := do
-        let a ← vget l1.vertices (n - 1) "loop3d.rs:close:a2"
-        let b ← vget l1.vertices 0 "loop3d.rs:close:b2"
-        let c ← vget l1.vertices 1 "loop3d.rs:close:c2"
-        a.isCollinearR b c
-      match firstCollinear with
-      | .err e => (l1, .err e)
-      | .panic p => (l1, .panic p)
-      | .ok col2 =>
-        -- `self.vertices.remove(0)`
-        let l2 := if col2 then { l1 with vertices := l1.vertices.eraseIdx 0 } else l1
-        let l3 := { l2 with closed := true }
-        match l3.setArea with
-        | (l4, .err e) => (l4, .err e)
-        | (l4, .panic p) => (l4, .panic p)
-        | (l4, .ok _) =>
-          match l4.setPerimeter with
-          | (l5, .err e) => (l5, .err e)
-          | (l5, .panic p) => (l5, .panic p)
-          | (l5, .ok _) => (l5, .ok ())
+      let l3 := { l1 with closed := true }
+      match l3.setArea with
+      | (_, .err e) => (l, .err e)
+      | (_, .panic p) => (l, .panic p)
+      | (l4, .ok _) =>
+        match l4.setPerimeter with
+        | (_, .err e) => (l, .err e)
+        | (_, .panic p) => (l, .panic p)
+        | (l5, .ok _) => (l5, .ok ())
 
 /-- what one edge `segment_ab` adds to `n_cross` in `test_point` (0 or 1) -/
 def crossingIncrement (normal d : V3 α) (ray segmentAB : Segment α) : Nat :=
   match segmentAB.getIntersectionPt ray with
   | some (tA, tB) =>
-    if inUnitClosed tB && inUnitClosed tA then
-      if tA <. (Num.eps : α) then
+    let snap : α := 1e-8
+    if inUnitClosed tB && ((-snap) <=. tA && tA <=. (1 : α) + snap) then
+      if tA <. snap then
         let sideNormal := d.cross segmentAB.asVector
         if sideNormal.isSameDirection normal then 1 else 0
-      else if tA <. (1 : α) then 1
+      else if tA <. (1 : α) - snap then 1
       else
         let sideNormal := d.cross segmentAB.asReversedVector
         if sideNormal.isSameDirection normal then 1 else 0
